@@ -92,6 +92,12 @@ def case_vec(run, i):
     a, kind = _vector(rng, i)
     w = _weights(rng, len(a), i)
     run.begin_case("vectors", i, cls=f"vec:{kind}")
+    if (i // 7) % 4 == 1:
+        # the callers inside the package pass table columns: pandas Series whose labels are those of a filtered table
+        import pandas as pd
+        idx = np.arange(len(a)) * 2 + 5
+        a, w = pd.Series(a, index=idx), pd.Series(w, index=idx)
+        run.extra["input:series-with-non-default-labels"] += 1
     for name in ("biweight_location", "modal_location", "biweight_midvariance", "gapper_scale", "interquartile_range",
                  "median_absolute_deviation"):
         _safe(getattr(D, name), a)
@@ -100,7 +106,7 @@ def case_vec(run, i):
     for name in ("weighted_median", "weighted_mad", "weighted_std"):
         _safe(getattr(D, name), a, w)
     # smoothers take finite signals
-    x = a[~np.isnan(a)] if kind == "nan" else a
+    x = a[~np.isnan(np.asarray(a, float))] if kind == "nan" else a
     widths = []
     if len(x):
         n = len(x)
@@ -111,11 +117,14 @@ def case_vec(run, i):
             _safe(S.savgol, x, width)
         _safe(S.kaiser, x)
         _safe(S.savgol, x)
-        pw = np.where(w[: len(x)] > 0, w[: len(x)], 0.05) if len(w) >= len(x) else np.full(len(x), 0.5)
+        w0 = np.asarray(w, float)
+        pw = np.where(w0[: len(x)] > 0, w0[: len(x)], 0.05) if len(w0) >= len(x) else np.full(len(x), 0.5)
+        if hasattr(x, "index"):
+            pw = type(x)(pw, index=x.index)
         _safe(S.savgol, x, widths[0], pw)
         _safe(S.savgol, x, None, pw, int(rng.choice([5, 7, 11])), 3, int(rng.choice([1, 2, 4])))
     run.end_case(fp=rt.fingerprint([a, w, widths], 12), nontrivial=len(a) >= 2,
-                 sample={"kind": kind, "a": a[:8], "w": w[:8], "widths": widths} if i % 701 == 0 else None)
+                 sample={"kind": kind, "a": np.asarray(a)[:8], "w": np.asarray(w)[:8], "widths": widths} if i % 701 == 0 else None)
 
 
 WORKLOADS = {"vectors": (_n, case_vec)}
